@@ -74,8 +74,10 @@ def granules_tool(f):
 class Host(object):
     """One simulated host with a reference model of every path."""
 
-    def __init__(self, res, oracles):
-        self.w = World()
+    def __init__(self, res, oracles, optimize=0):
+        self.w = World(optimize)
+        if optimize:
+            res.stats["fault:python_minus_O_processes"] += 1
         self.res = res
         self.oracles = oracles
         self.model = {}      # path -> {"kind": cas|dsk|bin|empty, "files": [...], "writer": tool|peer, "bytes_expected": bytes|None}
@@ -96,7 +98,9 @@ class Host(object):
             data = b""
             self.model[path] = {"kind": "empty", "files": [], "writer": "peer"}
         elif state in ("tool_cas", "big_cas"):
-            if desc.get("exact_size"):
+            if desc.get("chimera"):
+                files = self.chimera_files(files)
+            elif desc.get("exact_size"):
                 # choose the last file's length so that the whole tape is exactly desc["exact_size"] bytes long
                 def tape_len(n):
                     return 533 + n + 6 * (-(-n // 255)) + 6
@@ -125,9 +129,12 @@ class Host(object):
                 self.res.stats["probe:cassette_exactly_disk_sized"] += 1
         elif state == "peer_cas":
             r = Rng(desc.get("seed", 0))
+            pad = b"\x00" if desc.get("nulpad") else b" "
             data = b"".join(RT.write_file(dict(f, gap=r.choice([0, 0, 0xFF])), leader=r.choice([1, 64, 128, 300]),
-                                          blank=r.choice([0, 0, 128]), block_sizes=r.choice([None, [255], [r.randint(1, 255)]]))
+                                          blank=r.choice([0, 0, 128]), block_sizes=r.choice([None, [255], [r.randint(1, 255)]]), pad=pad)
                             for f in files)
+            if desc.get("nulpad"):
+                self.res.stats["probe:peer_tape_with_nul_padded_names"] += 1
             self.model[path] = {"kind": "cas", "files": files, "writer": "peer"}
         elif state == "tool_dsk":
             cont = mods["disk"].DiskFile()
@@ -140,7 +147,13 @@ class Host(object):
         elif state == "peer_dsk":
             r = Rng(desc.get("seed", 0))
             img = RD.blank()
-            for f in files:
+            for j, f in enumerate(files):
+                if j == 0 and desc.get("bait"):
+                    # granule 0 begins 00 00 55 3C 00 0F ...: an ML file of 85 bytes loaded at $3C00 whose data starts with $0F
+                    f = files[0] = dict(f, ftype=2, dtype=0, load=0x3C00, data=(b"\x0f" + bytes(f["data"]) + bytes(85))[:85])
+                    RD.save(img, f, "first", 0, r.choice(["decb", "tool"]))
+                    self.res.stats["probe:disk_whose_first_bytes_look_like_a_tape"] += 1
+                    continue
                 RD.save(img, f, r.choice(RD.POLICIES), r.below(1 << 16), r.choice(["decb", "tool"]))
             for victim in desc.get("kill", []):
                 # Disk BASIC KILL: a deleted entry ($00) in front of live ones, freed granules
@@ -160,6 +173,49 @@ class Host(object):
         else:
             raise HarnessError("state %r" % state)
         self.w.put(path, data, who="SETUP")
+
+    def chimera_files(self, files):
+        """Three files for a tool-written tape of exactly 161,280 bytes whose bytes at the offsets where a disk keeps its
+        allocation table and directory read like one (every granule free but one; one directory entry among unused
+        ones).  Whatever a sniffer looks at first, the tool wrote a cassette and must recognise it as one."""
+        OVER, EOFB = 533, 6
+
+        def tape_len(n):
+            return OVER + n + 6 * (-(-n // 255)) + EOFB
+        names = [f["name"] for f in files[:3]] + ["CHIM1", "CHIM2", "CHIM3"]
+        for first in range(40000, 40261):
+            start = tape_len(first) + OVER
+            dres, fres = (RD.DIR - start) % 261, (RD.FAT - start) % 261
+            if {(dres + 32 * e) % 261 for e in range(72)} & {0, 1, 2, 260}:
+                continue
+            if not (4 <= fres and fres + 68 <= 259 and 4 <= dres and dres + 32 <= 259):
+                continue
+            for second in range(60000, 60600):
+                rest = RD.IMAGE_SIZE - tape_len(first) - tape_len(second)
+                third = next((t for t in range(rest - 2000, rest) if t > 0 and tape_len(t) == rest), None)
+                if third is None:
+                    continue
+                data2 = bytearray(second)
+
+                def idx(off):
+                    block, res = divmod(off - start, 261)
+                    return block * 255 + res - 4
+                for g in range(68):
+                    data2[idx(RD.FAT + g)] = 0xFF
+                data2[idx(RD.FAT + 5)] = 0xC1
+                entry = b"NOTES   TXT" + bytes([0x01, 0xFF, 0x05, 0x00, 0x10]) + bytes(16)
+                for o, v in enumerate(entry):
+                    data2[idx(RD.DIR + o)] = v
+                for e in range(1, 72):
+                    block, res = divmod(RD.DIR + 32 * e - start, 261)
+                    if res == 259:      # a block checksum falls on the first byte of a directory entry: make it zero
+                        blk = data2[block * 255: block * 255 + 255]
+                        data2[block * 255 + 254] = (-(1 + len(blk) + sum(blk[:-1]))) & 0xFF
+                mk = lambda nm, d, load: {"name": nm[:8], "ext": "", "ftype": 2, "dtype": 0, "load": load, "exec": load + 2, "data": bytes(d)}
+                self.res.stats["probe:tape_that_also_reads_as_a_disk"] += 1
+                return [mk(names[0], bytes((3 * i + 1) & 0xFF for i in range(first)), 0x2000), mk(names[1], data2, 0x3000),
+                        mk(names[2], bytes((5 * i + 2) & 0xFF for i in range(third)), 0x4000)]
+        raise HarnessError("no chimera layout found")
 
     # -- reference readers ----------------------------------------------------------------------
     def reference_read(self, path):
@@ -327,7 +383,8 @@ class Host(object):
         """No invocation may create or modify a host file other than the targets it was given."""
         for ev in r.wrote():
             path = ev[2]
-            if path not in targets and path != "src.asm":
+            # a scratch file the tool creates and removes again is its own business; a file that was there before is not
+            if path not in targets and path in snapshot and not path.endswith((".asm",)):
                 self.res.violate("WROTE-ELSEWHERE", "the invocation touched %s, which is not one of its targets %r: %r" % (path, sorted(targets), ev[1:4]), k)
                 return
         after = self.w.fs.snapshot()
@@ -361,9 +418,10 @@ class Host(object):
         res = self.res
         w = self.w
         lines = op["lines"]
-        w.put("src.asm", "".join(lines).encode(), who="SETUP")
+        srcpath = op.get("srcpath", "src.asm")         # e.g. proj/src.asm: output paths stay relative to the working directory
+        w.put(posixpath.normpath(srcpath), "".join(lines).encode(), who="SETUP")
         ref = self.assemble_reference(lines)
-        args = ["src.asm"]
+        args = [srcpath]
         if op.get("name") is not None:
             args += ["--name", op["name"]]
         spelled = {}
